@@ -51,7 +51,8 @@ PROP = {'gen': [],
                   HARNESS],
  'assumptions': ['terminal in UTF-8 mode (C1 controls recognised as decoded code points); a zero or omitted numeric parameter of '
                  'cursor/erase/scroll functions means 1 (xterm); SGR 22 = normal intensity, 21 = double underline (ECMA-48)',
-                 'domain of the meaning theorems (cmd_ok): usize / i32 ranges, colour channels < 256, titles without control '
+                 'domain of the meaning theorems (cmd_ok): usize / i32 ranges, colour channels < 256, FaceAttrs underline style code 0..5 '
+                 '(codes 6 and 7 are not constructible through the public API), titles without control '
                  'characters (Unicode Cc), Char other than the seven characters that open a control sequence or string (ESC, C1 DCS SOS '
                  'CSI OSC PM APC: known finding C05-char-introducer, C05_char_introducer_refuted); Raw means its bytes '
                  'and is excluded from self-containedness',
